@@ -345,3 +345,98 @@ theorem run_noninterference (R : List Nat) (i : Nat) (sched : List Nat) :
       exact ih (stepAt cfg j) t sha hth hR hav' hag'
 
 end Typedpy.Sched
+
+namespace Typedpy.Sched
+
+/-! ### no foreign values: whatever the schedule, a thread only ever holds values of its own program -/
+
+def Step.vals : Step → List Int
+  | .storeTemp _ v _ => [v]
+  | .emit v => [v]
+  | _ => []
+
+def progVals (p : List Step) : List Int := p.flatMap Step.vals
+
+theorem lookup_mem {l : List (String × Int)} {k : String} {v : Int} (h : l.lookup k = some v) :
+    ∃ k', (k', v) ∈ l := by
+  induction l with
+  | nil => simp [List.lookup] at h
+  | cons a rest ih =>
+    obtain ⟨k0, v0⟩ := a
+    simp only [List.lookup] at h
+    split at h
+    · exact ⟨k0, by simp [Option.some.inj h]⟩
+    · obtain ⟨k', hk⟩ := ih h
+      exact ⟨k', List.mem_cons_of_mem _ hk⟩
+
+/-- everything the thread holds (temp structure, result so far, values still to be processed) is in `V` -/
+def ownOnly (V : List Int) (t : TState) : Prop :=
+  (∀ kv ∈ t.temp, kv.2 ∈ V) ∧ (∀ v ∈ t.out, v ∈ V) ∧ (∀ v ∈ progVals t.prog, v ∈ V)
+
+theorem stepT_ownOnly (V : List Int) (sh : Shared) (t : TState) (h : ownOnly V t) : ownOnly V (stepT sh t).2 := by
+  unfold stepT
+  split
+  · exact h
+  · exact h
+  · next s rest he hp =>
+    obtain ⟨h1, h2, h3⟩ := h
+    have hrest : ∀ v ∈ progVals rest, v ∈ V := by
+      intro v hv
+      apply h3
+      simp only [progVals, hp, List.flatMap_cons, List.mem_append]
+      exact Or.inr hv
+    have hs : ∀ v ∈ s.vals, v ∈ V := by
+      intro v hv
+      apply h3
+      simp only [progVals, hp, List.flatMap_cons, List.mem_append]
+      exact Or.inl hv
+    cases s with
+    | writeShared c n => exact ⟨h1, h2, hrest⟩
+    | newTemp => exact ⟨by simp [Step.local], h2, hrest⟩
+    | storeTemp c v ok =>
+      simp only [Step.local]
+      split
+      · refine ⟨?_, h2, hrest⟩
+        intro kv hkv
+        simp only [List.mem_cons] at hkv
+        rcases hkv with rfl | hkv
+        · exact hs v (by simp [Step.vals])
+        · exact h1 kv hkv
+      · exact ⟨h1, h2, hrest⟩
+    | loadTemp c =>
+      simp only [Step.local]
+      split
+      · next v hv =>
+        refine ⟨h1, ?_, hrest⟩
+        intro x hx
+        simp only [List.mem_append, List.mem_singleton] at hx
+        rcases hx with hx | rfl
+        · exact h2 x hx
+        · obtain ⟨k', hk⟩ := lookup_mem hv
+          exact h1 (k', x) hk
+      · exact ⟨h1, h2, hrest⟩
+    | emit v =>
+      simp only [Step.local]
+      refine ⟨h1, ?_, hrest⟩
+      intro x hx
+      simp only [List.mem_append, List.mem_singleton] at hx
+      rcases hx with hx | rfl
+      · exact h2 x hx
+      · exact hs x (by simp [Step.vals])
+
+theorem run_ownOnly (Vf : Nat → List Int) (sched : List Nat) : ∀ (cfg : Cfg),
+    (∀ (i : Nat) (t : TState), cfg.threads[i]? = some t → ownOnly (Vf i) t) →
+    ∀ (i : Nat) (t : TState), (run cfg sched).threads[i]? = some t → ownOnly (Vf i) t := by
+  induction sched with
+  | nil => intro cfg h i t ht; exact h i t ht
+  | cons j rest ih =>
+    intro cfg h
+    rw [run_cons]
+    apply ih
+    intro k tk' hk
+    rcases stepAt_thread_cases cfg j k tk' hk with h1 | ⟨tk, h1, h2⟩
+    · exact h k tk' h1
+    · rw [h2]
+      exact stepT_ownOnly _ _ _ (h k tk h1)
+
+end Typedpy.Sched
